@@ -44,6 +44,21 @@ func runMultiMount(t *tape.Tape, cfg sim.Config) (res sim.Result) {
 	}
 	var fsc wazero.FSConfig
 	var steps []string
+	// an intermediate configuration is sometimes USED (an empty module is instantiated with it and closed)
+	// before the derivation goes on: what a configuration worked out at its first use must not reach the
+	// configurations derived from it afterwards
+	urt := wazero.NewRuntimeWithConfig(ctx, wazero.NewRuntimeConfigInterpreter())
+	defer urt.Close(ctx)
+	use := func() {
+		if !t.Chance(1, 3) {
+			return
+		}
+		if mod, err := urt.InstantiateWithConfig(ctx, []byte{0, 'a', 's', 'm', 1, 0, 0, 0}, wazero.NewModuleConfig().WithName("").WithFSConfig(fsc)); err == nil {
+			mod.Close(ctx)
+		}
+		steps = append(steps, "(used)")
+		res.Stat("probe.intermediate_configuration_used_before_deriving_on", 1)
+	}
 	derive := func() (err error) {
 		defer func() {
 			if r := recover(); r != nil {
@@ -62,6 +77,7 @@ func runMultiMount(t *tape.Tape, cfg sim.Config) (res sim.Result) {
 		if firstWriteable {
 			fsc = fsc.WithDirMount(dir, "/data")
 			steps = append(steps, "dir(PROTECTED, writeable) /data")
+			use()
 		}
 		nAfter := t.Choose(3)
 		for i := nBefore; i < nBefore+nAfter && i < len(guestPaths); i++ {
@@ -80,6 +96,7 @@ func runMultiMount(t *tape.Tape, cfg sim.Config) (res sim.Result) {
 				steps = append(steps, "dir(again) "+gp)
 			}
 		}
+		use()
 		fsc = fsc.WithReadOnlyDirMount(dir, tape.Pick(t, []string{"/data", "/data/", "data"}))
 		steps = append(steps, "readonly(PROTECTED) /data")
 		if t.Chance(1, 3) {
